@@ -337,9 +337,17 @@ def do_copy(rec, scene, src, case, where):
         kw["copy_children"] = case["children"]
     if case.get("clear_cache"):
         kw["clear_cache"] = True
+    if case.get("override_name"):
+        # an attribute override for the copy itself (the documented way to name a copy): it applies to that entity only
+        kw["name"] = "copy under another name"
+        where += ":name-override"
     new = src.copy(parent=target, **kw)
     rec.see("copies-judged")
     rec.see("class:" + cls)
+    if new is not None and case.get("override_name"):
+        rec.see("copies-with-attribute-override")
+        rec.check("C12.differs", new.name == kw["name"], op=where, cls=cls, attr="override", detail=f"copy(name=...) gave a copy named {new.name!r}")
+        new.name = src.name  # compared below like any other copy: every child must still carry its own name
     if new is None:
         rec.fail("C12.differs", op=where, cls=cls, attr="none", detail="copy returned None")
         return None
@@ -566,7 +574,7 @@ def run_group(case, rec, rng, scene):
     g.add_comment("hello", author="verif")
     rec.see("group-subtrees")
     where = f"copy-group:{case['target']}"
-    new = do_copy(rec, scene, g, dict(case, children=True), where)
+    new = do_copy(rec, scene, g, dict(case, children=True, override_name=(len(cname) + TARGETS.index(case["target"]) + case.get("rep", 0)) % 2 == 0), where)
     rec.see("classes-covered") if case["target"] == "same-parent" else None
     rec.nontrivial = new is not None
     rec.shape = ["group", cname, case["target"], [type(o).__name__ for o in objs]]
